@@ -215,6 +215,13 @@ pub fn run(ctx: &Ctx) -> CheckResult {
         }
         runs.push(LongRun { cfg, regimes: vec![Regime::Walk, Regime::Saw], seglen: if th { 150_000 } else { 75_000 }, m: 0.7, force_bars: false });
     }
+    // past 2^21 (thorough: 2^22) calls on one instance: periodic maintenance code ("rebuild every 2^20 updates")
+    // runs for the first time there
+    for &n in &[3usize, 14] {
+        for cfg in subjects(n) {
+            runs.push(LongRun { cfg, regimes: vec![Regime::Walk, Regime::Saw], seglen: if th { 2_100_000 } else { 1_050_000 }, m: 0.7, force_bars: false });
+        }
+    }
     runs.sort_by_key(|r| std::cmp::Reverse(r.seglen * if matches!(r.cfg.kind, Kind::Mad | Kind::Cci) { r.cfg.p[0] } else { 1 }));
     res.extra.insert("long_runs".into(), json!(runs.len()));
     let chunks: Vec<&[LongRun]> = runs.chunks(if th { 2 } else { 4 }).collect();
